@@ -247,6 +247,6 @@ def filters(ctx, g):
         ctx.require(okwin, "T3-children-window", ch.name, "push<-curv>=min_curvature", "children below the window are pruned", "a child state is generated without curv >= min_curvature", ch.span_of(bi))
     ctx.floor("hyperbolic pushes in DSym children()", nh, 1)
     for h, e, it in loops_in(ch):
-        extra = sorted(loop_carried_mutables(ch, h, e) - {"iter", "result"})
+        extra = unexpected_carried_state(ch, h, e)
         ctx.ob("T3-per-child-state", ch.name, "loop-carried state", "ok" if not extra else "violation",
                "only the result vector is carried between branching values" if not extra else "state %s is carried from one branching value to the next" % extra)
